@@ -1,10 +1,18 @@
 /-
-Props/C16 — property theorems for C16 (system alignment is rigid and exact; scaling is uniform).  PARTIAL by nature:
-that scipy's `least_squares` reaches a zero residual from the zero start within `max_nfev` evaluations is numerical
-convergence of a library routine — validated by sampling in harness/corr/c16.py (and violated in ~0.3 % of in-domain
-cases, known finding D17), not proved.  Everything below is about Model/C16 instantiated with ℝ.
+Props/C16 — property theorems for C16 (system alignment is rigid and exact; scaling is uniform).
+
+PARTIAL by nature.  NOT proved (validated by sampling in harness/corr/c16.py, and in fact violated by the unchanged code in
+about 0.3 % of in-domain cases — known finding D17): that scipy's `least_squares` reaches a zero residual from the zero start
+within `max_nfev` evaluations whenever the misalignment is below 30° / 3 m.  The optimiser is a PARAMETER of the model
+(`lsq : Lsq ℝ`): the structural theorems hold for every optimiser; the exactness theorems take "the residual at the
+optimiser's answer is zero" (`Aligned raw …`, equivalent by `residual_zero_iff_aligned`) as their hypothesis.
+
+Everything is about Model/C16 instantiated with ℝ; helper lemmas are in Proofs/C16*.lean, the vocabulary (`IsProper`,
+`Aligned`, `dist3`, `relOrientation`) in Spec/C16.lean.  `Rotation.from_rotvec(..).as_matrix()` is the Rodrigues stand-in
+`rotVecToMat` (trusted: scipy implements it up to rounding).
 -/
-import CfVerif.Proofs.C16
+import CfVerif.Proofs.C16Align
+import CfVerif.Proofs.C16Scale
 namespace CfVerif.C16
 open CfVerif
 
@@ -18,13 +26,212 @@ theorem gen_residual_flow : Gen.C16.residualFlow =
     Gen.C16.xResidualSrc = "x_axis_diff" ∧ Gen.C16.planeResidualSrc = "xy_plane_diff" ∧
     Gen.C16.residualParts = ["np.ravel(residual_origin)", "np.ravel(x_axis_residual)", "np.ravel(xy_plane_residual)"] ∧
     Gen.C16.residualReturns = ["residual"] := by decide
+theorem gen_params_split : Gen.C16.rotHi = 3 ∧ Gen.C16.transLo = 3 ∧ Gen.C16.nParams = 6 := by decide
+/-- the optimiser is called on `_calc_residual` with the three sample sets, and its answer is turned into the pose;
+the evaluation cap is the one the convergence sampling (and finding D17) was characterised with -/
+theorem gen_find_transformation : Gen.C16.lsqPositional = ["cls._calc_residual", "x0"] ∧
+    Gen.C16.lsqArgs = "(origin, x_axis, xy_plane)" ∧ Gen.C16.lsqArgsKw = "args" ∧
+    Gen.C16.findReturns = ["cls._Pose_from_params(result.x)"] ∧ 10 ≤ Gen.C16.maxNfev := by decide
+theorem gen_deflip : Gen.C16.deflip1Idx = 0 ∧ Gen.C16.flip1Axis = 2 ∧ Gen.C16.deflip2Idx = 2 ∧ Gen.C16.flip2Axis = 0 := by decide
+theorem gen_deflip_flow : Gen.C16.deflipFlow = ["transformation = raw_transformation", "x_axis_mean = np.mean(x_axis, axis=0)",
+      "bs_pose = list(bs_poses.values())[0]"] ∧
+    Gen.C16.deflip1Test = "raw_transformation.rotate_translate(x_axis_mean) < 0.0" ∧
+    Gen.C16.deflip2Test = "raw_transformation.rotate_translate(bs_pose.translation) < 0.0" ∧
+    Gen.C16.deflipReturns = ["transformation"] := by decide
+theorem gen_align_flow : Gen.C16.alignFlow = ["raw_transformation = cls._find_transformation(origin, x_axis, xy_plane)",
+      "transformation = cls._de_flip_transformation(raw_transformation, x_axis, bs_poses)",
+      "result[bs_id] = transformation.rotate_translate_pose(pose)"] ∧
+    Gen.C16.alignLoop = "for (bs_id, pose) in bs_poses.items()" ∧ Gen.C16.alignReturns = ["(result, transformation)"] := by decide
+/-- the aligner writes to nothing but its own fresh `result` dict and calls no method on its arguments except dict views -/
+theorem gen_aligner_pure : Gen.C16.alignerStores = ["result[bs_id]"] ∧
+    Gen.C16.alignerCallsOnInputs = ["bs_poses.items", "bs_poses.values"] := by decide
+theorem gen_pose : Gen.C16.poseInit = ["self._R_matrix = np.array(R_matrix)", "self._t_vec = np.array(t_vec)"] ∧
+    Gen.C16.poseFromRotVec = ["Pose(Rotation.from_rotvec(R_vec).as_matrix(), t_vec)"] ∧
+    Gen.C16.poseAccessors = ["self._R_matrix", "self._t_vec"] ∧
+    Gen.C16.poseRotateTranslate = ["np.dot(self.rot_matrix, point) + self.translation"] ∧
+    Gen.C16.poseRotateTranslatePose = ["t = np.dot(self.rot_matrix, pose.translation) + self.translation",
+      "R = np.dot(self.rot_matrix, pose.rot_matrix)", "Pose(R_matrix=R, t_vec=t)"] := by decide
+/-- `Pose.scale` REBINDS `_t_vec` to a new array (it is not `*=`), and no other Pose method writes an attribute -/
+theorem gen_pose_scale_rebinds : Gen.C16.poseScale = ["self._t_vec = self._t_vec * scale"] ∧
+    Gen.C16.poseStores = ["scale: self._t_vec"] := by decide
+theorem gen_scale_system : Gen.C16.scaleSystemFlow = ["bs_scaled = {bs_id: copy.copy(pose) for bs_id, pose in bs_poses.items()}",
+      "cf_scaled = [copy.copy(pose) for pose in cf_poses]", "(bs_scaled, cf_scaled, scale_factor)"] ∧
+    Gen.C16.scaleSystemLoops = ["for pose in bs_scaled.values(): pose.scale(scale_factor)",
+      "for pose in cf_scaled: pose.scale(scale_factor)"] ∧ Gen.C16.scalerStores = [] := by decide
+theorem gen_scale_factors : Gen.C16.fixedPointFlow = ["expected_distance = np.linalg.norm(expected)",
+      "actual_distance = np.linalg.norm(actual.translation)", "scale_factor = expected_distance / actual_distance",
+      "cls._scale_system(bs_poses, cf_poses, scale_factor)"] ∧
+    Gen.C16.diagonalsFlow = ["estimated_diagonal = cls._calculate_mean_diagonal(bs_poses, cf_poses, matched_samples)",
+      "scale_factor = expected_diagonal / estimated_diagonal", "cls._scale_system(bs_poses, cf_poses, scale_factor)"] := by decide
+theorem gen_mean_diagonal : Gen.C16.meanDiagonalLoops = ["for (cf_pose, sample) in zip(cf_poses, matched_samples)",
+      "for (bs_id, vectors) in sample.angles_calibrated.items()"] ∧
+    Gen.C16.diagPoseArgs = ["bs_poses[bs_id], cf_pose", "bs_poses[bs_id], cf_pose"] ∧
+    Gen.C16.meanDiagonalFlow = ["estimated_diagonal = np.mean(diagonals)", "estimated_diagonal"] ∧
+    Gen.C16.intersectionDistanceFlow = ["intersection1 = cls.calc_intersection_point(vector1, bs_pose, cf_pose)",
+      "intersection2 = cls.calc_intersection_point(vector2, bs_pose, cf_pose)",
+      "distance = np.linalg.norm(intersection1 - intersection2)", "distance"] := by decide
+theorem gen_intersection : Gen.C16.deckNormal = [0, 0, 1] ∧
+    Gen.C16.intersectionFlow = ["plane_base = cf_pose.translation", "line_base = bs_pose.translation",
+      "line_vector = np.dot(bs_pose.rot_matrix, vector.cart)",
+      "dist_on_line = np.dot(plane_base - line_base, plane_normal) / np.dot(line_vector, plane_normal)",
+      "line_base + line_vector * dist_on_line"] := by decide
 
-/-! ## The property -/
+/-! ## Alignment: one proper rigid transformation, for every optimiser -/
 
-/-- The residual handed to the optimiser is zero exactly when the transformation maps the origin sample to (0,0,0),
-every x-axis sample to a point with y = z = 0 and every plane sample to a point with z = 0 (and it never raises). -/
+/-- **align applies one proper rigid map.**  Whatever `least_squares` returns (the optimiser `lsq` is arbitrary), if
+`align` returns `(result, T)` then `T` is a proper rotation plus translation, and `result` has exactly the ids of the
+input in the same order, each with the pose `T ∘ pose` (`rotate_translate_pose`). -/
+theorem align_applies_one_rigid_map (lsq : Lsq ℝ) (origin : Vec3 ℝ) (xAxis xyPlane : List (Vec3 ℝ))
+    (bsPoses result : List (Nat × Pose ℝ)) (T : Pose ℝ)
+    (h : align lsq origin xAxis xyPlane bsPoses = .ok (result, T)) :
+    T.IsProperRigid ∧ result = bsPoses.map (fun kv => (kv.1, T.rotateTranslatePose kv.2)) := by
+  obtain ⟨raw, x, xs', k, b, bs', _, hp, _, _, hT, hres⟩ :=
+    align_ok gen_deflip.1 gen_deflip.2.1 gen_deflip.2.2.1 gen_deflip.2.2.2 h
+  exact ⟨by rw [hT]; exact deFlipSpec_isProper hp _ _, hres⟩
+
+/-- `align` returns (does not raise) whenever there is at least one x-axis sample, at least one base station and the
+optimiser answers with six numbers; with no x-axis sample it raises ValueError, with no base station IndexError. -/
+theorem align_returns (lsq : Lsq ℝ) (origin x : Vec3 ℝ) (xs xyPlane : List (Vec3 ℝ)) (k : Nat) (b : Pose ℝ)
+    (bs : List (Nat × Pose ℝ))
+    (hlen : ∃ a b c d e f, lsq (fun p => calcResidual p origin (x :: xs) xyPlane) (List.replicate Gen.C16.nParams 0) = [a, b, c, d, e, f]) :
+    ∃ res T, align lsq origin (x :: xs) xyPlane ((k, b) :: bs) = .ok (res, T) :=
+  align_total gen_deflip.1 gen_deflip.2.1 gen_deflip.2.2.1 gen_deflip.2.2.2 gen_params_split.1 gen_params_split.2.1
+    lsq origin x xs xyPlane k b bs hlen
+
+/-- **distances are preserved**: between the positions of any two aligned base stations (indeed of any two points). -/
+theorem align_preserves_distances (lsq : Lsq ℝ) (origin : Vec3 ℝ) (xAxis xyPlane : List (Vec3 ℝ))
+    (bsPoses result : List (Nat × Pose ℝ)) (T : Pose ℝ)
+    (h : align lsq origin xAxis xyPlane bsPoses = .ok (result, T)) (p q : Pose ℝ) :
+    dist3 (T.rotateTranslatePose p).t (T.rotateTranslatePose q).t = dist3 p.t q.t := by
+  have hp := (align_applies_one_rigid_map lsq origin xAxis xyPlane bsPoses result T h).1
+  exact dist_preserved hp.1 p.t q.t
+
+/-- **relative orientations are preserved**: `R_pᵀ R_q` is the same before and after, for any two base stations. -/
+theorem align_preserves_relative_orientation (lsq : Lsq ℝ) (origin : Vec3 ℝ) (xAxis xyPlane : List (Vec3 ℝ))
+    (bsPoses result : List (Nat × Pose ℝ)) (T : Pose ℝ)
+    (h : align lsq origin xAxis xyPlane bsPoses = .ok (result, T)) (p q : Pose ℝ) :
+    relOrientation (T.rotateTranslatePose p) (T.rotateTranslatePose q) = relOrientation p q := by
+  have hp := (align_applies_one_rigid_map lsq origin xAxis xyPlane bsPoses result T h).1
+  exact relOrientation_preserved hp.1 p q
+
+/-! ## Exactness, given a zero residual -/
+
+/-- **residual_zero_iff_aligned.**  The residual handed to the optimiser is zero exactly when the transformation maps the
+origin sample to (0,0,0), every x-axis sample to a point with y = z = 0 and every plane sample to a point with z = 0
+(and computing it never raises). -/
 theorem residual_zero_iff_aligned (T : Pose ℝ) (origin : Vec3 ℝ) (xAxis xyPlane : List (Vec3 ℝ)) :
     (∃ r, calcResidualOf T origin xAxis xyPlane = .ok r ∧ ∀ c ∈ r, c = 0) ↔ Aligned T origin xAxis xyPlane :=
   residual_zero_iff_aux gen_residual_slices.1 gen_residual_slices.2.1 gen_residual_slices.2.2 T origin xAxis xyPlane
+
+/-- **deflip_correct.**  For EVERY raw transformation that is a proper rigid map, the de-flipped one is a proper rigid
+map, sends the mean of the x-axis samples to X ≥ 0 and the first base station to Z ≥ 0; and if the raw one had zero
+residual (`Aligned`), so has the de-flipped one. -/
+theorem deflip_correct (raw : Pose ℝ) (hraw : raw.IsProperRigid) (origin x : Vec3 ℝ) (xs xyPlane : List (Vec3 ℝ)) (k : Nat)
+    (b : Pose ℝ) (bs : List (Nat × Pose ℝ)) :
+    ∃ T, deFlip raw (x :: xs) ((k, b) :: bs) = .ok T ∧ T.IsProperRigid ∧
+      0 ≤ (T.rotateTranslate (meanVec (x :: xs))).x ∧ 0 ≤ (T.rotateTranslate b.t).z ∧
+      (Aligned raw origin (x :: xs) xyPlane → Aligned T origin (x :: xs) xyPlane) :=
+  ⟨_, deFlip_eq gen_deflip.1 gen_deflip.2.1 gen_deflip.2.2.1 gen_deflip.2.2.2 raw x xs k b bs,
+    deFlipSpec_isProper hraw _ _, (deFlipSpec_signs raw _ _).1, (deFlipSpec_signs raw _ _).2,
+    fun h => deFlipSpec_aligned h _ _⟩
+
+/-- **align is exact when the optimiser converged.**  If the residual at the optimiser's answer is zero, the returned
+transformation maps the origin sample to (0,0,0), x-axis samples to y = z = 0 with their mean at X ≥ 0, plane samples
+to z = 0, and puts the first base station at Z ≥ 0. -/
+theorem align_exact_of_zero_residual (lsq : Lsq ℝ) (origin : Vec3 ℝ) (xAxis xyPlane : List (Vec3 ℝ))
+    (bsPoses result : List (Nat × Pose ℝ)) (T raw : Pose ℝ)
+    (h : align lsq origin xAxis xyPlane bsPoses = .ok (result, T))
+    (hraw : findTransformation lsq origin xAxis xyPlane = .ok raw)
+    (hconv : ∃ r, calcResidualOf raw origin xAxis xyPlane = .ok r ∧ ∀ c ∈ r, c = 0) :
+    Aligned T origin xAxis xyPlane ∧ 0 ≤ (T.rotateTranslate (meanVec xAxis)).x ∧
+      ∀ kb ∈ bsPoses.head?, 0 ≤ (T.rotateTranslate kb.2.t).z := by
+  obtain ⟨raw', x, xs', k, b, bs', hr, _, hxs, hbs, hT, _⟩ :=
+    align_ok gen_deflip.1 gen_deflip.2.1 gen_deflip.2.2.1 gen_deflip.2.2.2 h
+  rw [hraw] at hr
+  injection hr with hr
+  subst hr
+  rw [hT]
+  refine ⟨deFlipSpec_aligned ((residual_zero_iff_aligned raw origin xAxis xyPlane).1 hconv) _ _,
+    (deFlipSpec_signs raw _ _).1, ?_⟩
+  intro kb hkb
+  rw [hbs] at hkb
+  simp only [List.head?_cons, Option.mem_def, Option.some.injEq] at hkb
+  subst hkb
+  exact (deFlipSpec_signs raw _ _).2
+
+/-- **x-axis samples land on the positive X axis.**  If the x-axis samples were taken on one ray from the origin sample
+(`origin + c·u`, `c > 0`), any rigid transformation with zero residual that puts their mean at X ≥ 0 — in particular the
+one `align` returns after convergence — maps each of them to `(its distance from the origin sample, 0, 0)`. -/
+theorem x_samples_on_positive_axis (T : Pose ℝ) (hT : T.IsProperRigid) (origin u : Vec3 ℝ) (cs : List ℝ) (hne : cs ≠ [])
+    (hpos : ∀ c ∈ cs, 0 < c) (xyPlane : List (Vec3 ℝ))
+    (hal : Aligned T origin (cs.map fun c => origin.add (u.smul c)) xyPlane)
+    (hmean : 0 ≤ (T.rotateTranslate (meanVec (cs.map fun c => origin.add (u.smul c)))).x) :
+    ∀ c ∈ cs, T.rotateTranslate (origin.add (u.smul c)) = ⟨dist3 origin (origin.add (u.smul c)), 0, 0⟩ :=
+  x_samples_image hT.1 origin u cs hne hpos xyPlane hal hmean
+
+/-! ## Scaling -/
+
+/-- **scale_uniform.**  `_scale_system` returns, for every base station id (same ids, same order) and every Crazyflie pose,
+the pose with the SAME rotation and the translation multiplied by the one factor; the factor is returned unchanged. -/
+theorem scale_uniform (bsPoses : List (Nat × Pose ℝ)) (cfPoses : List (Pose ℝ)) (f : ℝ) :
+    scaleSystem bsPoses cfPoses f =
+      (bsPoses.map (fun kv => (kv.1, (⟨kv.2.R, kv.2.t.smul f⟩ : Pose ℝ))), cfPoses.map (fun p => ⟨p.R, p.t.smul f⟩), f) := rfl
+
+/-- `scale_fixed_point` scales by `|expected| / |actual.translation|`, and that factor makes the reference distance exact:
+the scaled reference position is at distance `|expected|` from the origin. -/
+theorem scale_fixed_point_exact (bsPoses : List (Nat × Pose ℝ)) (cfPoses : List (Pose ℝ)) (expected : Vec3 ℝ) (actual : Pose ℝ)
+    (hne : actual.t.norm ≠ 0) :
+    scaleFixedPoint bsPoses cfPoses expected actual = scaleSystem bsPoses cfPoses (expected.norm / actual.t.norm) ∧
+    (actual.scale (expected.norm / actual.t.norm)).t.norm = expected.norm :=
+  ⟨rfl, reference_distance_exact expected actual.t hne⟩
+
+/-- `scale_diagonals` scales by `expected / estimated mean diagonal`, and the mean sensor diagonal recomputed on the scaled
+system (same samples) is exactly the expected one. -/
+theorem scale_diagonals_exact (bsPoses : List (Nat × Pose ℝ)) (cfPoses : List (Pose ℝ))
+    (samples : List (List (Nat × List (Vec3 ℝ)))) (expected est : ℝ)
+    (hest : calculateMeanDiagonal bsPoses cfPoses samples = .ok est) (hpos : 0 < est) (hexp : 0 ≤ expected) :
+    ∃ bs' cf', scaleDiagonals bsPoses cfPoses samples expected = .ok (bs', cf', expected / est) ∧
+      (bs', cf', expected / est) = scaleSystem bsPoses cfPoses (expected / est) ∧
+      calculateMeanDiagonal bs' cf' samples = .ok expected := by
+  obtain ⟨bs', cf', h1, h2⟩ := scaleDiagonals_exact gen_intersection.1 bsPoses cfPoses samples expected est hest hpos hexp
+  refine ⟨bs', cf', h1, ?_, h2⟩
+  unfold scaleDiagonals at h1
+  rw [hest] at h1
+  injection h1 with h1
+  exact h1.symm
+
+/-- **intersection_on_plane_and_ray.**  `calc_intersection_point` never raises; its result is the point
+`bs.t + s·(R_bs·cart)` of the base station's ray line with `s = dist_on_line`; when the ray is not parallel to the deck it
+lies in the deck plane (through the Crazyflie position, normal = the deck's z axis), and it is the only such point. -/
+theorem intersection_on_plane_and_ray (cart : Vec3 ℝ) (bs cf : Pose ℝ) :
+    calcIntersectionPoint cart bs cf = .ok (bs.t.add ((bs.R.mulVec cart).smul (distOnLine cart bs cf))) ∧
+    ((bs.R.mulVec cart).dot (deckNormalOf cf) ≠ 0 →
+      ((bs.t.add ((bs.R.mulVec cart).smul (distOnLine cart bs cf))).sub cf.t).dot (deckNormalOf cf) = 0 ∧
+      ∀ s, ((bs.t.add ((bs.R.mulVec cart).smul s)).sub cf.t).dot (deckNormalOf cf) = 0 → s = distOnLine cart bs cf) :=
+  ⟨calcIntersectionPoint_eq gen_intersection.1 cart bs cf,
+    fun h => ⟨intersection_on_plane cart bs cf h, fun s hs => intersection_unique cart bs cf h s hs⟩⟩
+
+/-! ## Non-vacuity: concrete instances of the hypotheses -/
+
+/-- the identity has zero residual on samples that are already aligned -/
+example : Aligned (⟨Mat3.one, Vec3.zero⟩ : Pose ℝ) ⟨0, 0, 0⟩ [⟨1, 0, 0⟩] [⟨1, 1, 0⟩] := by
+  refine ⟨?_, ?_, ?_⟩ <;> simp [Pose.rotateTranslate, Mat3.mulVec, Mat3.one, Vec3.add, Vec3.zero]
+/-- a mirror-flipped raw answer (half turn about Z) also has zero residual: the de-flip is needed -/
+example : Aligned flipZ ⟨0, 0, 0⟩ [⟨-1, 0, 0⟩] [⟨1, 1, 0⟩] := by
+  refine ⟨?_, ?_, ?_⟩ <;> simp [flipZ, Pose.rotateTranslate, Mat3.mulVec, Vec3.add, Vec3.zero]
+example : (⟨Mat3.one, Vec3.zero⟩ : Pose ℝ).IsProperRigid := Mat3.one_isProper
+/-- an optimiser that answers six zeros makes `align` return -/
+example : ∃ res T, align (fun _ _ => [0, 0, 0, 0, 0, 0]) (⟨0, 0, 0⟩ : Vec3 ℝ) [⟨1, 0, 0⟩] [⟨1, 1, 0⟩]
+    [(7, ⟨Mat3.one, ⟨0, 0, 1⟩⟩)] = .ok (res, T) :=
+  align_returns _ _ _ _ _ _ _ _ ⟨0, 0, 0, 0, 0, 0, rfl⟩
+example : (⟨3, 4, 0⟩ : Vec3 ℝ).norm ≠ 0 := by
+  have h : (⟨3, 4, 0⟩ : Vec3 ℝ).norm = 5 := by
+    show Real.sqrt (3 * 3 + 4 * 4 + 0 * 0) = 5
+    rw [show (3 : ℝ) * 3 + 4 * 4 + 0 * 0 = 5 * 5 by norm_num]
+    exact Real.sqrt_mul_self (by norm_num)
+  rw [h]; norm_num
+/-- a ray straight down from 2 m onto a level deck is not parallel to it -/
+example : ((⟨Mat3.one, ⟨0, 0, 2⟩⟩ : Pose ℝ).R.mulVec ⟨0, 0, -1⟩).dot (deckNormalOf ⟨Mat3.one, Vec3.zero⟩) ≠ 0 := by
+  simp [Mat3.mulVec, Mat3.one, Vec3.dot, deckNormalOf]
 
 end CfVerif.C16
